@@ -34,6 +34,10 @@ def items(tier, seed):
     hc = M.hydrocarbons(5 if tier == "quick" else 6)
     for lo in range(0, len(hc), 10):
         out.append({"part": "hydrocarbons", "lo": lo, "hi": min(len(hc), lo + 10), "tier": tier})
+    # process history: chemically meaningless inputs (over-coordinated H / C / halogen first) followed, in the SAME process,
+    # by ordinary molecules - module-level tables and caches must not be polluted by earlier calls
+    for k in range(6):
+        out.append({"part": "history", "k": k, "tier": tier})
     names = sorted(M.listed())
     for nm in names:
         out.append({"part": "listed", "name": nm, "tier": tier})
@@ -117,7 +121,21 @@ def run_item(item):
         if item["mask"] == (1 << len(pairs)) - 1:
             out["samples"].append({"part": "structural", "n": n, "matrix": A.tolist(), "alphabet": alphabet})
         return out
-    if item["part"] == "chem":
+    if item["part"] == "history":
+        k = item["k"]
+        weird = [(["H", "C", "C", "C"], [(0, 1), (0, 2), (0, 3)]), (["C"] + ["H"] * 6, [(0, i) for i in range(1, 7)]),
+                 (["F", "C", "C"], [(0, 1), (0, 2)]), (["Cl", "H", "H", "H"], [(0, 1), (0, 2), (0, 3)]),
+                 (["O", "H", "H", "H", "H"], [(0, i) for i in range(1, 5)]), (["N"] + ["H"] * 5, [(0, i) for i in range(1, 6)])]
+        els, bonds = weird[k]
+        A = np.zeros((len(els), len(els)), dtype=int)
+        for i, j in bonds:
+            A[i, j] = A[j, i] = 1
+        structural_check(els, A, out, item, "history-structural")
+        out["evals"] += 1
+        pool = M.enumerated(3)
+        sel = [m for m in pool if any(e in ("S", "P", "N", "O") for e in m[0])]
+        named = [(mol_id(m), m) for m in sel[k:: 6][:120]] + [(nm, M.listed()[nm]) for nm in sorted(M.listed())[k:: 6]]
+    elif item["part"] == "chem":
         mols = M.enumerated(3 if tier == "quick" else 4)[item["lo"]:item["hi"]]
         named = [(mol_id(m), m) for i, m in enumerate(mols)]
     elif item["part"] == "hydrocarbons":
